@@ -12,6 +12,8 @@ One model step = one mutex-protected section (or one unlocked poller statement) 
 * `evEnd`                           — what the poller does after the read part: `ResetPollerEvent`
                                       (ONESHOT) and `closeWithError(io.EOF)` for an error event
 * `close`                           — `closeWithError` (flip under the mutex + teardown)
+* `setWriteDeadline`, `timerExpire`, `timerFire` — SetWriteDeadline; the runtime starts the timer's
+                                      goroutine; it takes the mutex in `closeWithError(errWriteTimeout)`
 
 Between `evTake` and `evEnd` other steps may occur (writes from the data callback or from other
 goroutines). Kernel answers are explicit inputs; an exhausted answer script means EAGAIN. A
@@ -70,6 +72,9 @@ structure S where
   -- DialAsync: `c.onConnected != nil` (connect in progress) / the poller is running that callback
   connecting : Bool := false
   connEv : Bool := false
+  -- write deadline: `c.wTimer != nil` / the timer has expired and its goroutine has not yet taken the mutex
+  wTimer : Bool := false
+  firePending : Bool := false
   -- kernel side
   reg : Bool := false         -- fd registered with epoll
   kOut : Bool := false        -- EPOLLOUT in the registered interest set
@@ -129,8 +134,16 @@ def cResetRead (g : Cfg) (s : S) : S :=
 def resetPollerEvent (g : Cfg) (s : S) : S :=
   if g.mode == .oneshot && !s.closed then (if s.wl.isEmpty then pResetRead g s else pModWrite g s) else s
 
-/-- closeWithErrorWithoutLock after `closed = true`: release the queue, notify, close the fd -/
+/-- closeWithErrorWithoutLock after `closed = true`: release the queue, notify, close the fd
+    (the fatal-error branches of Write / Writev / Sendfile / flush come here directly: they do not stop
+    the deadline timers) -/
 def closeNow (s : S) : S := { s with closed := true, wl := [], onClose := s.onClose + 1 }
+
+/-- `if c.wTimer != nil { c.wTimer.Stop(); c.wTimer = nil }` -/
+def stopTimer (s : S) : S := { s with wTimer := false }
+
+/-- closeWithError on an open conn: flag, stop the timers, teardown -/
+def closeWE (s : S) : S := closeNow (stopTimer s)
 
 def overflow (g : Cfg) (s : S) (n : Nat) : Bool := g.maxWB > 0 && s.left + n > g.maxWB
 
@@ -150,9 +163,10 @@ def writeInner (g : Cfg) (s : S) (b : Bytes) (k : KAns) : S × Ret :=
       if b.length - n > 0 then (enqueue s (b.drop n), ⟨b.length, .none⟩) else (s, ⟨b.length, .none⟩)
   else (enqueue { s with accepted := s.accepted ++ b } b, ⟨b.length, .none⟩)
 
-/-- the tail of Write / Writev: fatal error ⇒ close; backlog ⇒ arm EPOLLOUT -/
+/-- the tail of Write / Writev: fatal error ⇒ close; nothing left to write ⇒ clear the write deadline;
+    backlog ⇒ arm EPOLLOUT -/
 def finishCall (g : Cfg) (r : S × Ret) : S × Ret :=
-  if r.2.err = .none then ((if r.1.wl.isEmpty then r.1 else cModWrite g r.1), r.2)
+  if r.2.err = .none then ((if r.1.wl.isEmpty then stopTimer r.1 else cModWrite g r.1), r.2)
   else (closeNow r.1, r.2)
 
 def write (g : Cfg) (s : S) (b : Bytes) (k : KAns) : S × Ret :=
@@ -230,7 +244,7 @@ def flushLoop (g : Cfg) : Nat → S → List KAns → S
   | 0, s, _ => { s with hung := true }
   | fuel + 1, s, ks =>
     match s.wl with
-    | [] => cResetRead g s
+    | [] => cResetRead g (stopTimer s)                       -- drained: clear the write deadline, resetRead
     | .buf d off :: tl =>
       let rest := d.drop off
       if rest.length = 0 then flushLoop g fuel s ks        -- write(fd, "", 0) = 0: nothing changes, loop again
@@ -300,9 +314,23 @@ def evEnd (g : Cfg) (s : S) : S :=
   -- after the connected callback: `c.onConnected = nil; c.resetRead()` under the mutex
   let s := if s.connEv then cResetRead g { s with connecting := false, connEv := false } else s
   let s := if s.rearm then resetPollerEvent g { s with rearm := false } else s
-  if s.evErr then (if s.closed then { s with evErr := false } else closeNow { s with evErr := false }) else s
+  if s.evErr then (if s.closed then { s with evErr := false } else closeWE { s with evErr := false }) else s
 
-def close (s : S) : S := if s.hung || s.closed then s else closeNow s
+def close (s : S) : S := if s.hung || s.closed then s else closeWE s
+
+/-! ## write deadline -/
+
+/-- SetWriteDeadline: zero time clears, anything else arms (AfterFunc) or re-arms (Reset) -/
+def setWriteDeadline (s : S) (zero : Bool) : S :=
+  if s.hung || s.closed then s else { s with wTimer := !zero }
+
+/-- the runtime fires the timer (only a timer that is set and was not stopped): its goroutine starts -/
+def timerExpire (s : S) : S := if s.wTimer then { s with firePending := true } else s
+
+/-- the timer goroutine gets the mutex: closeWithError(errWriteTimeout) -/
+def timerFire (s : S) : S :=
+  if !s.firePending || s.hung then s
+  else if s.closed then { s with firePending := false } else closeWE { s with firePending := false }
 
 /-! ## transition system -/
 
@@ -315,6 +343,9 @@ inductive Op
   | evTake (out inn err : Bool) (ks : List KAns)
   | evEnd
   | close
+  | setWriteDeadline (zero : Bool)
+  | timerExpire
+  | timerFire
 
 def step (g : Cfg) (s : S) : Op → S
   | .write b k => (write g s b k).1
@@ -325,6 +356,9 @@ def step (g : Cfg) (s : S) : Op → S
   | .evTake o i e ks => evTake g s o i e ks
   | .evEnd => evEnd g s
   | .close => close s
+  | .setWriteDeadline z => setWriteDeadline s z
+  | .timerExpire => timerExpire s
+  | .timerFire => timerFire s
 
 def run (g : Cfg) (s : S) (ops : List Op) : S := ops.foldl (step g) s
 
